@@ -982,7 +982,8 @@ mod c39 {
     /// In-memory storage that logs every mutating backend call.
     #[derive(Debug)]
     struct RecBackend {
-        data: Mutex<Vec<u8>>,
+        /// shared, so that a second store can be opened on what the first one left
+        data: Arc<Mutex<Vec<u8>>>,
         log: Option<Arc<Mutex<Vec<Op>>>>,
     }
 
@@ -1058,11 +1059,18 @@ mod c39 {
         flag: bool,
         #[serde(default)]
         got: Option<P>,
+        /// committed packet per key at the time the message is handled (compared for "snap")
+        #[serde(default)]
+        seen: BTreeMap<String, P>,
     }
     #[derive(Deserialize)]
     struct Case {
         b: usize,
         msgs: Vec<Msg>,
+        /// mixed batches: the store is reopened on a database that holds an expired packet of k2, so the
+        /// eviction task's CheckExpired opens the first batch
+        #[serde(default)]
+        mixed: bool,
     }
     #[derive(Serialize)]
     struct Cut {
@@ -1108,6 +1116,8 @@ mod c39 {
 
     /// Canonical text of a store content: `k1=ts.pl,k2=0.0|ts@k1,...` (keys and entries sorted).
     fn project(dump: &StoreDump, keys: &BTreeMap<String, [u8; 32]>, built: &BTreeMap<Vec<u8>, (String, u64, u64)>) -> String {
+        // real timestamp -> model timestamp, from the packets this case can publish
+        let ts_of: BTreeMap<u64, u64> = built.iter().map(|(b, (_, ts, _))| (u64::from_be_bytes(b[96..104].try_into().unwrap()), *ts)).collect();
         let name_of = |kb: &[u8; 32]| keys.iter().find(|(_, v)| *v == kb).map(|(n, _)| n.clone()).unwrap_or_else(|| "?".into());
         let mut pk: BTreeMap<String, String> = keys.keys().map(|k| (k.clone(), "0.0".to_string())).collect();
         for (kb, row) in &dump.packets {
@@ -1125,7 +1135,7 @@ mod c39 {
             .index
             .iter()
             .map(|(t, kb)| {
-                let ts = if *t > TS_BASE && *t < TS_BASE + 1000 { (t - TS_BASE).to_string() } else { "?".into() };
+                let ts = ts_of.get(t).map(|m| m.to_string()).unwrap_or_else(|| "?".into());
                 format!("{ts}@{}", name_of(kb))
             })
             .collect();
@@ -1135,7 +1145,7 @@ mod c39 {
     }
 
     fn reopen(rt: &tokio::runtime::Runtime, image: &[u8], keys: &BTreeMap<String, [u8; 32]>, built: &BTreeMap<Vec<u8>, (String, u64, u64)>) -> String {
-        let backend = RecBackend { data: Mutex::new(image.to_vec()), log: None };
+        let backend = RecBackend { data: Arc::new(Mutex::new(image.to_vec())), log: None };
         let db = match Database::builder().create_with_backend(backend) {
             Ok(db) => db,
             Err(e) => return format!("open-failed: {e}"),
@@ -1164,28 +1174,53 @@ mod c39 {
         let keys: BTreeMap<String, [u8; 32]> = secrets.iter().map(|(n, s)| (n.clone(), *s.public().as_bytes())).collect();
         let mut built: BTreeMap<Vec<u8>, (String, u64, u64)> = BTreeMap::new();
         let mut packets = BTreeMap::new();
+        let retention = Duration::from_secs(3600);
+        let now = std::time::SystemTime::now().duration_since(std::time::UNIX_EPOCH).unwrap().as_micros() as u64;
+        // mixed: model timestamp 1 is an hour beyond the retention, 2 and 3 are half an hour inside it
+        let real_ts = |ts: u64| -> u64 {
+            if !c.mixed {
+                TS_BASE + ts
+            } else if ts == 1 {
+                now - 2 * retention.as_micros() as u64
+            } else {
+                now - retention.as_micros() as u64 / 2 + ts * 60_000_000
+            }
+        };
         for k in knames {
             for ts in 1..=3u64 {
                 for pl in 1..=3u64 {
                     let z = secrets[k].public().to_z32();
                     let dns = dns_payload(&[Rec { zl: k.into(), rel: "_iroh".into(), ty: "TXT".into(), v: pl }], &|_| z.clone());
-                    let p = signed_packet(&secrets[k], TS_BASE + ts, &dns);
+                    let p = signed_packet(&secrets[k], real_ts(ts), &dns);
                     built.insert(p.as_bytes().to_vec(), (k.to_string(), ts, pl));
                     packets.insert((k.to_string(), ts, pl), p);
                 }
             }
         }
         let log = Arc::new(Mutex::new(Vec::<Op>::new()));
-        let backend = RecBackend { data: Mutex::new(Vec::new()), log: Some(log.clone()) };
-        verif::take_events();
-        verif::record(true);
-        let db = Database::builder().create_with_backend(backend).expect("create database on recording backend");
-        let store = rt.block_on(async {
-            VerifZoneStore::with_database(db, opts(c.b, Duration::from_micros(u64::MAX), Duration::from_secs(3600), Duration::from_secs(3600))).expect("open store")
-        });
-        // the eviction task's first (and only) snapshot request must not land inside a batch
-        wait_scan_done();
-        verif::record(false);
+        let data = Arc::new(Mutex::new(Vec::new()));
+        let hour = Duration::from_secs(3600);
+        let open_store = |eviction: Duration| {
+            let backend = RecBackend { data: data.clone(), log: Some(log.clone()) };
+            verif::take_events();
+            verif::record(true);
+            let db = Database::builder().create_with_backend(backend).expect("open database on recording backend");
+            let store = rt.block_on(async { VerifZoneStore::with_database(db, opts(c.b, eviction, hour, hour)).expect("open store") });
+            // the eviction task's only scan is over: its snapshot request cannot land inside a client batch, and
+            // every CheckExpired it found reason for is queued ahead of whatever the client sends from now on
+            wait_scan_done();
+            verif::record(false);
+            store
+        };
+        let store = if c.mixed {
+            let first = open_store(Duration::from_micros(u64::MAX));
+            let f = rt.block_on(first.insert(packets[&("k2".to_string(), 1, 1)].clone())).expect("insert expired packet");
+            assert!(f, "setup: expired packet not stored");
+            drop(first); // clean close: the expired packet is committed
+            open_store(retention)
+        } else {
+            open_store(Duration::from_micros(u64::MAX))
+        };
         log.lock().unwrap().push(Op::Opened);
         for (i, m) in c.msgs.iter().enumerate() {
             log.lock().unwrap().push(Op::Sent);
@@ -1194,6 +1229,14 @@ mod c39 {
                     let f = store.insert(packets[&(m.k.clone(), m.ts, m.pl)].clone()).await.map_err(|e| ("insert failed".to_string(), "Ok".to_string(), format!("{e:#}")))?;
                     if f != m.flag {
                         return Err(("insert flag".to_string(), m.flag.to_string(), f.to_string()));
+                    }
+                } else if m.op == "snap" {
+                    let d = store.dump().await.map_err(|e| ("snapshot failed".to_string(), "Ok".to_string(), format!("{e:#}")))?;
+                    let shown = project(&d, &keys, &built);
+                    let got = shown.split('|').next().unwrap_or("").to_string();
+                    let exp = m.seen.iter().map(|(k, p)| format!("{k}={}.{}", p.ts, p.pl)).collect::<Vec<_>>().join(",");
+                    if got != exp {
+                        return Err(("snapshot content".to_string(), exp, got));
                     }
                 } else {
                     let g = store.get_signed_packet(&keys[&m.k]).await.map_err(|e| ("get failed".to_string(), "Ok".to_string(), format!("{e:#}")))?;
@@ -1247,7 +1290,7 @@ mod c39 {
                 }
                 _ => {}
             }
-            if p < opened || !matches!(op, Op::Write(..) | Op::SetLen(_) | Op::Sync) {
+            if p < opened || !matches!(op, Op::Write(..) | Op::SetLen(_) | Op::Sync | Op::Acked) {
                 continue;
             }
             // crash right after operation p: everything issued so far reached the disk
@@ -1264,7 +1307,7 @@ mod c39 {
                 _ => out.cuts.push(Cut { from: p, to: p, sent, acked, sent0: sent, acked0: acked, subset: false, state }),
             }
             // crash with only a subset of the not yet synced writes on disk
-            for _ in 0..subsets {
+            for _ in 0..(if matches!(op, Op::Acked) { 0 } else { subsets }) {
                 let pending: Vec<&Op> = ops[last_sync + 1..=p].iter().filter(|o| matches!(o, Op::Write(..) | Op::SetLen(_))).collect();
                 if pending.len() < 2 || last_sync < opened {
                     break;
